@@ -1408,6 +1408,6 @@ def run_family(chk, prop):
     if t not in chk.trusted:
         chk.trusted.append(t)
     for p in props:
-        for s in STATED_NOT_PROVED[p]:
+        for s in STATED_NOT_PROVED.get(p, []):
             if s not in chk.stated_not_proved:
                 chk.stated_not_proved.append(s)
